@@ -234,6 +234,17 @@ func Faithful(args []string) {
 	for _, q := range rangeForms() {
 		texts = append(texts, fuzzInput{text: q, class: "range-form"})
 	}
+	// texts that hold something no token of the grammar can hold (a stray character, an unterminated quote) or a number no
+	// type can hold: "rejects the rest" - accepting one of them means a part of the text was dropped on the way to the model
+	for _, in := range fuzzInputs(nil0(), 0, false) {
+		if in.unrep {
+			texts = append(texts, in)
+		}
+	}
+	for _, q := range []string{"match (n) where n.a != 1 return n", "match (n) where !(n.a = 1) return n", "match (n) return n 'never closed detach delete n", "match (n) where n.a = 1 # and n.b = 2\nreturn n",
+		"match (n) where n.a @ 1 return n", "match (n) return n.a ~ 1", "match (n) return n ?", "match (n) \\ return n", "match (n) return n; § "} {
+		texts = append(texts, fuzzInput{text: q, class: "lexical-garbage", unrep: true})
+	}
 	for _, q := range caseVariantSources {
 		for _, v := range caseVariants(q) {
 			texts = append(texts, fuzzInput{text: v, class: "case-variant"})
@@ -247,7 +258,7 @@ func Faithful(args []string) {
 	texts = append(texts, grammarTexts(envInt("VH_GRAMMAR_PER", 3), 1)...)
 	w := tr.Create(*outp)
 	for hid, in := range texts {
-		ev := map[string]any{"e": "c07", "hid": hid, "class": in.class, "text": clip(in.text), "accepted": false, "panic": false, "reparse_ok": false,
+		ev := map[string]any{"e": "c07", "hid": hid, "class": in.class, "text": clip(in.text), "unrepresentable": in.unrep, "accepted": false, "panic": false, "reparse_ok": false,
 			"fixpoint": false, "tokens_ok": false, "order_ok": false, "missing": []string{}, "emitted": ""}
 		func() {
 			defer func() {
